@@ -256,7 +256,7 @@ func c19Programs(r *core.Rng, n int) []string {
 	b := func() string { return c19Bounds[r.Intn(len(c19Bounds))] }
 	var out []string
 	for len(out) < n {
-		switch r.Intn(15) {
+		switch r.Intn(16) {
 		case 0, 1, 2, 3, 4:
 			fn := names[r.Intn(len(names))]
 			if fn == "CALL" {
@@ -305,6 +305,13 @@ func c19Programs(r *core.Rng, n int) []string {
 		case 10:
 			out = append(out, "DECLARE c CURSOR FOR SELECT id FROM t; OPEN c; VAR @x; FETCH ABSOLUTE "+b()+" c INTO @x; FETCH RELATIVE "+b()+" c INTO @x; PRINT @x;",
 				"SELECT SUBSTR('abc', "+b()+", "+b()+"), SUBSTRING('abc' FROM "+b()+" FOR "+b()+"), LPAD('a', "+b()+", "+b()+"), REPLACE('a', '', "+b()+");")
+		case 14:
+			// every output format rendering values that are awkward to lay out
+			fm := []string{"TEXT", "BOX", "GFM", "ORG", "CSV", "TSV", "FIXED", "JSON", "JSONL", "LTSV"}[r.Intn(10)]
+			hv := []string{"'abc\r'", "'\r'", "'a\r\nb'", "'a\nb\n'", "'\n'", "''", "'\t'", "' '", "'日本語の値'", "'e\u0301'", "'🙂🙂'", "'a|b'", "'\\'", "REPEAT('x', 300)", "NULL", "TRUE", "1e308", "DATETIME('2012-02-03')", "'\x1b[31mred'", "'a\u200bb'", "'ＡＢＣ'"}
+			pick := func() string { return hv[r.Intn(len(hv))] }
+			opt := []string{"", "SET @@EAST_ASIAN_ENCODING TO TRUE; ", "SET @@COUNT_DIACRITICAL_SIGN TO TRUE; ", "SET @@COUNT_FORMAT_CODE TO TRUE; ", "SET @@PRETTY_PRINT TO TRUE; ", "SET @@WITHOUT_HEADER TO TRUE; ", "SET @@ENCLOSE_ALL TO TRUE; ", "SET @@COLOR TO TRUE; ", "SET @@JSON_ESCAPE TO HEXALL; "}[r.Intn(9)]
+			out = append(out, fmt.Sprintf("SET @@FORMAT TO %s; %sSELECT %s AS a, %s AS `b\rc`, %s; SELECT %s AS x FROM t; SELECT * FROM e; SET @@FORMAT TO CSV;", fm, opt, pick(), pick(), pick(), pick()))
 		case 13:
 			// boundary values as operands of statements (not of functions)
 			flags := []string{"@@DELIMITER", "@@FORMAT", "@@LINE_BREAK", "@@TIMEZONE", "@@CPU", "@@WAIT_TIMEOUT", "@@LIMIT_RECURSION", "@@DATETIME_FORMAT", "@@ENCODING", "@@WRITE_ENCODING", "@@JSON_ESCAPE", "@@STRICT_EQUAL", "@@QUIET", "@@NO_SUCH_FLAG"}
